@@ -229,6 +229,12 @@ func init() {
 		return string(out)
 	})
 	rt("SymSched", func(i *Interp, fr *frame, a []value) value { i.symSched = a[0].(bool); return nil })
+	rt("PreemptBound", func(i *Interp, fr *frame, a []value) value {
+		// from now on: at every synchronisation point the running goroutine may be preempted in
+		// favour of any other runnable goroutine, at most k times on a path (k = 0 switches it off)
+		i.preemptBudget = int(a[0].(int64))
+		return nil
+	})
 	rt("Yield", func(i *Interp, fr *frame, a []value) value { i.pollYield(); return nil })
 	rt("WaitIdle", func(i *Interp, fr *frame, a []value) value {
 		// block the calling thread until every other thread is done or blocked
@@ -289,6 +295,12 @@ func init() {
 		if !i.cfg.Known[id] {
 			return nil
 		}
+		i.exp.mu.Lock()
+		if i.exp.stats.KnownIDs == nil {
+			i.exp.stats.KnownIDs = map[string]bool{}
+		}
+		i.exp.stats.KnownIDs[id] = true
+		i.exp.mu.Unlock()
 		if i.cfg.OnlyFinding == id {
 			i.assume(a[1])
 		} else {
@@ -330,7 +342,7 @@ func init() {
 	})
 	reg("(*sync.WaitGroup).Wait", func(i *Interp, fr *frame, a []value) value {
 		m := i.mutex(a[0].(*value))
-		if i.symSched {
+		if i.symSched || i.preemptBudget > 0 {
 			i.yield(nil)
 		}
 		if m.readers > 0 {
